@@ -50,6 +50,18 @@ def scale(v, k):
     return [x * k for x in v]
 
 
+def axis_vec(rng, near_p=0.15):
+    """a body axis: one of the nice orthogonal directions, or — now and then — a direction within a few degrees of a
+    coordinate axis without being one (10 : 0.3 : 0.1, i.e. 1.8° off; 40 : 0.5 : -1, 1.6° off)"""
+    if rng.random() >= near_p:
+        return ortho_triple(rng)[0]
+    v = rng.choice([[10.0, 0.3, 0.1], [40.0, 0.5, -1.0], [10.0, -0.25, 0.0], [20.0, 0.0, 0.5], [10.0, 0.4, 0.2]])
+    k = rng.randrange(3)
+    v = v[-k:] + v[:-k] if k else list(v)
+    sg = rng.choice([1.0, -1.0])
+    return [sg * x / 10.0 for x in v]
+
+
 def elementary(rng, kinds=None):
     """(mnemonic, params) with 'nice' parameters"""
     kinds = kinds or ['px', 'py', 'pz', 'p', 'p3', 'so', 's', 'sx', 'sy', 'sz', 'c/x', 'c/y', 'c/z', 'cx', 'cy',
@@ -174,7 +186,7 @@ def macrobody(rng, kinds=None, irregular=None):
     if k == 'sph':
         return 'sph', [c(), c(), c(), rng.choice(POSR)]
     if k == 'rcc':
-        h = scale(ortho_triple(rng)[0], rng.choice([1., 2.]))
+        h = scale(axis_vec(rng), rng.choice([1., 2.]))
         return 'rcc', [c(), c(), c()] + h + [rng.choice(POSR)]
     if k in ('rhp9', 'hex'):
         h, r, _ = ortho_triple(rng)
@@ -204,12 +216,12 @@ def macrobody(rng, kinds=None, irregular=None):
             return 'rec', [c(), c(), c()] + h + a + [rng.choice([0.5, 1.0, 2.0])]
         return 'rec', [c(), c(), c()] + h + a + scale(b, rng.choice([0.5, 1.0]))
     if k == 'trc':
-        h = scale(ortho_triple(rng)[0], rng.choice([1., 2.]))
+        h = scale(axis_vec(rng), rng.choice([1., 2.]))
         r1, r2 = rng.sample([0.5, 1.0, 2.0, 3.0], 2)
         return 'trc', [c(), c(), c()] + h + [r1, r2]
     if k == 'ell+':
         ctr = [c(), c(), c()]
-        ax = ortho_triple(rng)[0]
+        ax = axis_vec(rng, 0.25)
         n = math.sqrt(dot(ax, ax))
         cdist = rng.choice([1.0, 2.0])
         u = [x / n * cdist for x in ax]
@@ -217,7 +229,7 @@ def macrobody(rng, kinds=None, irregular=None):
         f2 = [ctr[i] - u[i] for i in range(3)]
         return 'ell', f1 + f2 + [cdist + rng.choice([1.0, 2.0])]
     if k == 'ell-':
-        ax = scale(ortho_triple(rng)[0], rng.choice([1., .5]))
+        ax = scale(axis_vec(rng, 0.25), rng.choice([1., .5]))
         return 'ell', [c(), c(), c()] + ax + [-rng.choice([1.0, 2.0, 3.0])]
     if k == 'wed':
         a, b, h = ortho_triple(rng)
@@ -607,3 +619,42 @@ def complement_chain_deck(rng):
     d.cells = cells
     d.mats = {1: [('13027', '1.0')], 2: [('26056', '-0.9'), ('6012', '-0.1')]}
     return d
+
+
+def union_complement_deck(rng):
+    """a cell that is a chain of three or more unions (of half-spaces and small intersections), and the cells around it
+    written with its complement #n: the complement of a union chain is the intersection of ALL the complemented
+    operands"""
+    d = D.Deck()
+    n = rng.randint(3, 5)
+    for i in range(1, n + 1):
+        if rng.random() < 0.6:
+            d.surfs.append(D.Surf(i, 's', [rng.choice(HALF), rng.choice(HALF), rng.choice([-1.0, 0.0, 1.5]), rng.choice([1.0, 1.5, 2.5])]))
+        else:
+            d.surfs.append(D.Surf(i, rng.choice(['px', 'py', 'pz']), [rng.choice(HALF)]))
+    d.surfs.append(D.Surf(n + 1, 'so', [7.5]))
+    ops = []
+    for i in range(1, n + 1):
+        lit = ('s', -i if d.surfs[i - 1].mn == 's' or rng.random() < 0.5 else i)
+        if rng.random() < 0.25 and i > 1:
+            lit = ('i', lit, ('s', rng.choice([1, -1]) * rng.randint(1, i - 1)))
+        ops.append(lit)
+    e = ops[0]
+    for o in ops[1:]:
+        e = ('u', e, o) if rng.random() < 0.8 else ('u', o, e)
+    ids = rng.sample(range(1, 30), 3)
+    c1 = Cell_(ids[0], ('i', e, ('s', -(n + 1))) if rng.random() < 0.5 else e, 1)
+    inner_is_clipped = c1.expr[0] == 'i' and c1.expr[2] == ('s', -(n + 1))
+    c2e = ('i', ('cc', ids[0]), ('s', -(n + 1))) if rng.random() < 0.6 else ('i', ('s', -(n + 1)), ('cc', ids[0]))
+    c2 = Cell_(ids[1], c2e, 2)
+    rest = ('s', n + 1) if inner_is_clipped else ('i', ('s', n + 1), ('cc', ids[0]))
+    c3 = D.Cell(ids[2], rest, mat=0, imp=0)
+    cells = [c1, c2, c3]
+    rng.shuffle(cells)
+    d.cells = cells
+    d.mats = {1: [('13027', '1.0')], 2: [('26056', '-0.9'), ('6012', '-0.1')]}
+    return d
+
+
+def Cell_(cid, expr, mat):
+    return D.Cell(cid, expr, mat=mat, rho='-1.0' if mat == 1 else '-2.0')
